@@ -361,6 +361,16 @@ func c16(c *Sexp) *Sexp {
 			if err == nil {
 				t, err = tree.StarTreeFromTree(src)
 			}
+		case "bipartition":
+			t, err = tree.BipartitionTree(c.StrList("lefts"), c.StrList("rights"))
+		case "edgetree":
+			var src *tree.Tree
+			src, err = BuildTree(c.Get("tree"))
+			if err == nil {
+				if err = src.ReinitIndexes(); err == nil {
+					t = tree.EdgeTree(src, src.Edges()[c.Int("k")], nil)
+				}
+			}
 		default:
 			panicmsg = "unknown generator"
 		}
